@@ -177,6 +177,9 @@ func doOp(m *message.Message, o opSpec) ([]byte, bool, error) {
 		return nil, false, err
 	case "adskip":
 		return nil, false, m.SkipClassAdRaw(ctx)
+	case "remain":
+		b, err := m.GetRemainingBytes(ctx)
+		return b, err == nil, err
 	case "idstr":
 		s, err := security.VerifC13GetIDString(ctx, m)
 		return []byte(s), err == nil, err
@@ -202,11 +205,29 @@ func parseFailIndex(errText string) int {
 
 type failure struct{ key, desc string }
 
+// depthStream is the mock stream with a call-stack probe: reassembly in
+// Message.ensureData must not add a stack frame per frame pulled.
+type depthStream struct {
+	*mock.Stream
+	maxDepth int
+}
+
+func (d *depthStream) ReadFrame(c context.Context) ([]byte, bool, error) {
+	var pcs [512]uintptr
+	if n := runtime.Callers(0, pcs[:]); n > d.maxDepth {
+		d.maxDepth = n
+	}
+	return d.Stream.ReadFrame(c)
+}
+
+var maxMsgDepthSeen int
+
 // runMsg drives the real Message reader over a mock stream and applies the
 // direct property oracle to every call.
 func runMsg(mc *msgCase) ([]opObs, []failure) {
 	st := &mock.Stream{Enc: mc.Enc, In: append([]mock.Frame(nil), mc.Frames...)}
-	m := message.NewMessageFromStream(st)
+	ds := &depthStream{Stream: st}
+	m := message.NewMessageFromStream(ds)
 	var obs []opObs
 	var fails []failure
 	total := 0
@@ -249,6 +270,12 @@ func runMsg(mc *msgCase) ([]opObs, []failure) {
 		}
 		if b := allocBound(o.family(), pulled+16); out.Alloc > b {
 			fails = append(fails, failure{"alloc", fmt.Sprintf("%s(%d) enc=%v allocated %d bytes after %d bytes were received (bound %d)", o.Op, o.N, mc.Enc, out.Alloc, pulled, b)})
+		}
+		if ds.maxDepth > maxMsgDepthSeen {
+			maxMsgDepthSeen = ds.maxDepth
+		}
+		if ds.maxDepth > 64 {
+			fails = append(fails, failure{"recursion", fmt.Sprintf("%s(%d) enc=%v: call stack %d frames deep while pulling %d frames (one stack frame per frame?)", o.Op, o.N, mc.Enc, ds.maxDepth, len(mc.Frames)-left)})
 		}
 		if out.Dur > 3*time.Second {
 			fails = append(fails, failure{"slow", fmt.Sprintf("%s(%d) enc=%v ran %v on a %d-byte input", o.Op, o.N, mc.Enc, out.Dur, total)})
@@ -324,6 +351,8 @@ func opTerm(o opSpec, ob *opObs) string {
 			pf = fmt.Sprintf("(Some %d)", ob.parseFail)
 		}
 		return "(OAd " + core.Z(o.N) + " " + pf + ")"
+	case "remain":
+		return "ORemain"
 	case "adraw":
 		return "OAdRaw"
 	case "adskip":
@@ -343,6 +372,21 @@ func valTerm(o outcome) string {
 		return "(Some " + bytesTerm(o.Val) + ")"
 	}
 	return "None"
+}
+
+// oracleMsgCase runs the direct oracle only (no Coq case).
+func oracleMsgCase(c *core.Ctx, mc *msgCase) {
+	if aborted {
+		return
+	}
+	mc.Kind = "msg"
+	_, fails := runMsg(mc)
+	c.OracleCheck()
+	c.Evaluated(1)
+	c.Count("msg-oracle-only-" + mc.Ops[0].Op)
+	for _, f := range fails {
+		c.OracleFail(f.key, f.desc, mc)
+	}
 }
 
 func addMsgCase(c *core.Ctx, mc *msgCase) {
@@ -754,12 +798,115 @@ func genMessageLevel(c *core.Ctx) {
 	}
 }
 
+// genQuotedValues: ClassAd expressions whose value is a quoted string over
+// quotes / backslashes / ordinary characters at every position: the strict
+// parser, the literal shortcut and the old-ClassAd string fallback all see them.
+func genQuotedValues(c *core.Ctx) {
+	alpha := []byte{'a', '\\', '"', ' ', 'S'}
+	var inners [][]byte
+	var rec func(prefix []byte, k int)
+	rec = func(prefix []byte, k int) {
+		inners = append(inners, append([]byte(nil), prefix...))
+		if k == 0 {
+			return
+		}
+		for _, ch := range alpha {
+			rec(append(prefix, ch), k-1)
+		}
+	}
+	depth := 3
+	if !c.Quick() {
+		depth = 4
+	}
+	rec(nil, depth)
+	nRand := 60
+	if !c.Quick() {
+		nRand = 600
+	}
+	for i := 0; i < nRand; i++ {
+		n := 4 + c.Rng.Intn(8)
+		b := make([]byte, n)
+		for k := range b {
+			b[k] = alpha[c.Rng.Intn(len(alpha))]
+			if c.Rng.Intn(6) == 0 {
+				b[k] = byte(c.Rng.Intn(256))
+			}
+		}
+		inners = append(inners, b)
+	}
+	for ii, in := range inners {
+		expr := append(append([]byte("A = \""), in...), '"')
+		addTextCase(c, "parse_expr", expr)
+		addTextCase(c, "old_string", in)
+		if ii%4 == 0 {
+			addTextCase(c, "parse_expr", append([]byte("A ="), in...)) // unquoted
+		}
+		for _, enc := range []bool{false, true} {
+			data := adBytes(enc, 2, [][]byte{[]byte("B = 1"), expr}, []byte("Machine"), []byte("Job"))
+			for _, cp := range []int64{0, 4096} {
+				mc := &msgCase{Enc: enc, Frames: mock.Cut(data, nil), Ops: []opSpec{{Op: "ad", N: cp}}, Note: "quoted value"}
+				if (ii+int(cp))%16 == 0 {
+					addMsgCase(c, mc)
+				} else {
+					oracleMsgCase(c, mc)
+				}
+			}
+		}
+	}
+}
+
+// genEmptyFrameRuns: long runs of zero-length partial frames in front of (and inside)
+// the data, through every reader: reassembly must stay iterative.
+func genEmptyFrameRuns(c *core.Ctx) {
+	for _, enc := range []bool{false, true} {
+		payload := append(wireStr(enc, []byte("hello")), i64(7)...)
+		ad := adBytes(enc, 1, [][]byte{[]byte("A = 1")}, []byte("Machine"), []byte("Job"))
+		idp := append(i64(3), wireStr(enc, []byte("bob"))...)
+		for _, o := range []struct {
+			ops  []opSpec
+			data []byte
+		}{
+			{[]opSpec{{Op: "int"}}, i64(5)}, {[]opSpec{{Op: "str"}, {Op: "int"}}, payload}, {[]opSpec{{Op: "strmax", N: 64}}, payload},
+			{[]opSpec{{Op: "skip"}, {Op: "int"}}, payload}, {[]opSpec{{Op: "bytes", N: 6}}, payload}, {[]opSpec{{Op: "remain"}}, payload},
+			{[]opSpec{{Op: "ad", N: 0}}, ad}, {[]opSpec{{Op: "ad", N: 256}}, ad}, {[]opSpec{{Op: "adraw"}}, ad}, {[]opSpec{{Op: "adskip"}}, ad},
+			{[]opSpec{{Op: "idstr"}}, idp}, {[]opSpec{{Op: "rawbytes", N: 4}}, payload},
+		} {
+			for _, n := range []int{300, 4000} {
+				var fr []mock.Frame
+				for i := 0; i < n; i++ {
+					fr = append(fr, mock.Frame{Data: []byte{}, EOM: false})
+				}
+				half := len(o.data) / 2
+				fr = append(fr, mock.Frame{Data: o.data[:half], EOM: false})
+				for i := 0; i < n/10; i++ {
+					fr = append(fr, mock.Frame{Data: []byte{}, EOM: false})
+				}
+				fr = append(fr, mock.Frame{Data: o.data[half:], EOM: true})
+				mc := &msgCase{Enc: enc, Frames: fr, Ops: o.ops, Note: "empty partial frames"}
+				if n == 300 && o.ops[0].Op != "rawbytes" {
+					addMsgCase(c, mc)
+				} else {
+					oracleMsgCase(c, mc)
+				}
+				// never completed: only empty frames, then the stream ends
+				oracleMsgCase(c, &msgCase{Enc: enc, Frames: fr[:n], Ops: o.ops, Note: "only empty partial frames"})
+			}
+		}
+	}
+}
+
 func gen(c *core.Ctx) error {
 	c.Rule("structure-aware malformed inputs to every decoder entry point of the anchors (typed strings / capped strings / skip / raw bytes / bounded and raw ClassAd readers over a recording mock stream in both encryption modes; frame readers, multi-frame reassembly, exchangeKey, SSL receiveMessage over a real stream.Stream on a byte-counting in-memory connection, cleartext and AES-GCM; crypto-state blobs; claim-id / session-info / address / version / watch / shared-port parsers). Every call runs under recover() with a TotalAlloc delta, a running-time bound, a stack-depth probe and byte accounting (direct oracle), and its outcome class, consumed bytes and returned value are compared with the Coq model. non-trivial = case whose every call succeeded; distinct by (mode, bytes, framing, ops)")
 	c.Assume("allocation is measured as runtime.MemStats.TotalAlloc deltas (whole process; background allocation is negligible because the harness is single-threaded apart from the guarded call)")
 	c.Assume("the external ClassAd expression parser is an oracle: the index of the expression it refused is taken from the error and handed to the model")
 	c.PerFile = 250
 	genMessageLevel(c)
+	if !aborted {
+		genQuotedValues(c)
+	}
+	if !aborted {
+		genEmptyFrameRuns(c)
+	}
 	if !aborted {
 		genWire(c)
 	}
@@ -769,6 +916,7 @@ func gen(c *core.Ctx) error {
 	if !aborted {
 		genSci(c)
 	}
+	c.Note(fmt.Sprintf("deepest call stack seen at a mock-stream ReadFrame: %d frames (oracle bound 64)", maxMsgDepthSeen))
 	c.Note(fmt.Sprintf("deepest call stack seen at a connection read: %d frames (oracle bound 64)", maxDepthSeen))
 	if aborted {
 		c.Note("generation stopped early: a call did not return within the spin bound (reported as an oracle failure)")
